@@ -275,6 +275,10 @@ impl Archive {
 
         debug!("Find unreferenced blocks...");
         let unref = present.difference(&referenced).collect_vec();
+        #[cfg(feature = "verif_hooks")]
+        let unref_owned = transport::verif::order_seam(unref.into_iter().cloned().collect());
+        #[cfg(feature = "verif_hooks")]
+        let unref = unref_owned.iter().collect_vec();
         let unref_count = unref.len();
         debug!(unref_count);
         stats.unreferenced_block_count = unref_count;
